@@ -17,6 +17,7 @@ instantiated with the executable MD5 of `Qx.Crypto.Md5` (cross-checked against h
   deliver | drop | dup | swap | flip <bit> | eclose | wsid | wsender [<which other JID>]
   inj <sender> <sid> (open <bs> | data <seq> <hex|-> | rawdata <seq> <hex of element text> | close)
   lose | rinj <origin> <back> ok|<condition> | pclose
+  ssend <scenario>   → final error of the SOCKS5 sending job (`ssendOutcome`)
       → <replies>|R <state> <error> <len> <digest> d<job's byte counter> f<finished signals> e<error signals>
           (len / digest: what the DEVICE holds)
                  |S <state> <error> <bytes read> f<…> e<…>|P <pending request>
@@ -170,6 +171,18 @@ def stepLine (d : D) (line : String) : D × String :=
     match snd.toNat?, sid.toNat?, parseKind k with
     | some a, some b, some k => apply d (.inject a b k)
     | _, _, _ => (d, "bad-op")
+  -- SOCKS5 sending side: one line per scenario, the answer is the job's final error
+  | ["ssend", sc] =>
+    let o : Option JError :=
+      match sc with
+      | "direct-honest" => some (ssendOutcome .ownConnected 1 1)
+      | "direct-early-close" => some (ssendOutcome .ownConnected 1 0)
+      | "direct-not-connected" => some (ssendOutcome .ownNotConnected 1 1)
+      | "unknown-host-used" => some (ssendOutcome .unknown 1 1)
+      | "proxy-honest" => some (ssendOutcome .proxyActivated 1 1)
+      | "proxy-activation-refused" => some (ssendOutcome .proxyRefused 1 1)
+      | _ => none
+    (d, match o with | some e => showErr e | none => "bad-op")
   | ["lose"] => apply d .lose
   -- a response IQ reaches the sending client: rinj <origin: 0 = the peer> <back: 0 = id of its last request> ok|<condition>
   | ["rinj", o, b, c] =>
